@@ -248,6 +248,9 @@ fn eval_history(ctx: &Ctx, case: &Case, mode: &str, seq: &[u16]) {
 }
 
 pub fn replay(ctx: &Arc<Ctx>, v: &Value) {
+    if crate::cold::replay(ctx, v) {
+        return;
+    }
     let c: Case = serde_json::from_value(v.clone()).expect("C07 case");
     eval(ctx, &c);
 }
@@ -335,6 +338,7 @@ pub fn run(ctx: &Arc<Ctx>) {
         ctx.cov(&format!("object_history_model/{}", mode), serde_json::json!({"unique_states": st.unique_states, "generated": st.generated, "max_depth": st.max_depth}));
     }
     ctx.sample(serde_json::json!({"History": {"mode": "ctr", "seq": [1, 3, 0]}}));
+    crate::cold::check(ctx, "C07");
 }
 
 /// the reference modes are pinned by OpenSSL-generated vectors (corpus/sm4_modes.json)
